@@ -3,6 +3,8 @@ package lib
 import (
 	"crypto/rand"
 	"crypto/x509"
+	"crypto/x509/pkix"
+	"encoding/asn1"
 	"math/big"
 	"sync"
 	"time"
@@ -34,6 +36,28 @@ func MintCRL(number int64, nextUpdate time.Time, padBytes int) *x509.RevocationL
 		tmpl.RevokedCertificateEntries = append(tmpl.RevokedCertificateEntries, x509.RevocationListEntry{
 			SerialNumber: big.NewInt(number*1_000_000 + int64(i) + 1), RevocationTime: time.Unix(1_600_000_000, 0)})
 	}
+	der, err := x509.CreateRevocationList(rand.Reader, tmpl, iss, ent.Key)
+	if err != nil {
+		panic(err)
+	}
+	rl, err := x509.ParseRevocationList(der)
+	if err != nil {
+		panic(err)
+	}
+	return rl
+}
+
+// MintBigCRL creates a parsed CRL whose DER is about size bytes: the bulk is one unknown non-critical extension, which
+// costs nothing to encode or parse (a CRL with as many revoked entries would take seconds). fill seeds the bulk so
+// that two big CRLs differ throughout.
+func MintBigCRL(number int64, nextUpdate time.Time, size int, fill byte) *x509.RevocationList {
+	iss, ent := CRLIssuer()
+	bulk := make([]byte, size)
+	for i := range bulk {
+		bulk[i] = fill + byte(i*7)
+	}
+	tmpl := &x509.RevocationList{Number: big.NewInt(number), ThisUpdate: time.Now().Add(-20 * 365 * 24 * time.Hour), NextUpdate: nextUpdate,
+		ExtraExtensions: []pkix.Extension{{Id: asn1.ObjectIdentifier{1, 3, 6, 1, 4, 1, 99999, 1}, Value: bulk}}}
 	der, err := x509.CreateRevocationList(rand.Reader, tmpl, iss, ent.Key)
 	if err != nil {
 		panic(err)
